@@ -139,6 +139,11 @@ theorem C19_copy_file (fs : FS) (s t : String) (hne : s ≠ t) (bytes : List Nat
   · simp [hne, hs]
   · intro p hp; simp [hp]
 
+/-- the copy is unconditional in the source: no test, early return or exception handler stands between the call of `copy_file` and
+    `shutil.copyfile` (regenerated list of such statements is empty), so `C19_copy_file` applies to EVERY state of the file system - also when
+    the destination already exists with the same size and a newer time stamp -/
+theorem C19_copy_is_unconditional : copyFileGuards = [] := by decide
+
 /-- `shutil.copyfile` refuses to copy a file onto itself -/
 theorem C19_copy_same_path_fails (fs : FS) (s : String) : copyFile fs s s = none := by
   have e : copyFile fs s s = copyfile fs s s := by
